@@ -10,17 +10,20 @@ Record config_case := {
   cc_fresh : list (option cstate)           (* a freshly started gateway on the same file (None: it refuses to start) *)
 }.
 
+(* which of the two readings of Load the code under test follows (Model/Config.v) *)
+Definition code_pfixed := true.
+
 Definition cstate_eqb (a b : cstate) : bool :=
-  seteq_str (cs_mem a) (cs_mem b) && Nat.eqb (List.length (dedupe_str (cs_mem a))) (List.length (dedupe_str (cs_mem b))) && eff_equiv a b.
+  seteq_str (cs_plug a) (cs_plug b) && seteq_str (cs_mem a) (cs_mem b) && Nat.eqb (List.length (dedupe_str (cs_mem a))) (List.length (dedupe_str (cs_mem b))) && eff_equiv a b.
 
 Fixpoint run_cfg (env : list string) (st : cstate) (fs : list file) (obs : list cstate) (fr : list (option cstate))
   : bool * bool * bool * bool :=      (* corr.state, corr.fresh, prop.equiv_restart, prop.failed_edit_keeps *)
   match fs, obs, fr with
   | f :: ft, o :: ot, r :: rt =>
-      let st' := reload true env st f in
+      let st' := reload true code_pfixed env st f in
       let '(a, b, c, d) := run_cfg env st' ft ot rt in
       (cstate_eqb st' o && a,
-       match fresh true env f, r with
+       match fresh true code_pfixed env f, r with
        | Some x, Some y => eff_equiv x y
        | None, None => true
        | _, _ => false end && b,
@@ -38,7 +41,7 @@ Fixpoint failed_keeps (prev : cstate) (obs : list cstate) (fr : list (option cst
   end.
 
 Definition check_config_case (c : config_case) : list (string * bool) :=
-  let st0 := match fresh true (cc_env c) (cc_first c) with Some s => s | None => zero end in
+  let st0 := match fresh true code_pfixed (cc_env c) (cc_first c) with Some s => s | None => zero end in
   let '(a, b, p, _) := run_cfg (cc_env c) st0 (cc_edits c) (cc_observed c) (cc_fresh c) in
   [ ("corr.initial", cstate_eqb st0 (cc_init_obs c));
     ("corr.state_after_reload", a);
